@@ -29,6 +29,7 @@ theorem evOnSignal_ind (P : State → Prop)
     (hEn : ∀ s j, Inv s → P s → P (enable repaired s j).1)
     (hDis : ∀ s j, Inv s → P s → P (disable s j).1)
     (hDes : ∀ s j, Inv s → P s → P (destroy s j).1)
+    (hInit : ∀ s j sg o, Inv s → P s → P (initEv repaired s j sg o).1)
     (hPre : ∀ s l e g, Inv s → e ∈ subsOf s l g → P s → P (evPre s l e g))
     (s : State) (l e g : Nat) (h : Inv s) (hm : e ∈ subsOf s l g) (hp : P s) : P (evOnSignal repaired s l e g) := by
   rw [evOnSignal_eq]
@@ -44,6 +45,7 @@ theorem evOnSignal_ind (P : State → Prop)
     | enable j => simp only [act]; split <;> first | exact hEn s1 j h1 hp1 | exact hp1
     | disable j => simp only [act]; split <;> first | exact hDis s1 j h1 hp1 | exact hp1
     | destroy j => simp only [act]; split <;> first | exact hDes s1 j h1 hp1 | exact hp1
+    | init j sg o => simp only [act]; split <;> first | exact hInit s1 j _ o h1 hp1 | exact hp1
 
 /-! ### baseDisp -/
 
@@ -105,6 +107,7 @@ theorem baseDisp_evOnSignal (s : State) (l e g g' : Nat) (h : Inv s) (hm : e ∈
     (fun s1 j h1 hp => by rw [baseDisp_enable s1 j g' h1]; exact hp)
     (fun s1 j h1 hp => by rw [baseDisp_disable s1 j g' h1]; exact hp)
     (fun s1 j h1 hp => by rw [baseDisp_destroy s1 j g' h1]; exact hp)
+    (fun s1 j sg o h1 hp => by rw [baseDisp_initEv s1 j sg o g' h1]; exact hp)
     (fun s1 l1 e1 g1 h1 _ hp => by rw [baseDisp_evPre s1 l1 e1 g1 g' h1]; exact hp)
     s l e g h hm rfl
 
@@ -199,6 +202,13 @@ theorem pipeMono_destroy (s : State) (e : Nat) : PipeMono s (destroy s e).1 := b
     exact pipeMono_disable s e
   · simp only [ha, Bool.not_false, ↓reduceIte]; exact PipeMono.refl s
 
+theorem pipeMono_initEv (s : State) (e : Nat) (sg : List Nat) (o : Bool) : PipeMono s (initEv repaired s e sg o).1 := by
+  unfold initEv
+  by_cases ha : (s.evs e).alive = true
+  · simp only [ha, Bool.not_true, Bool.false_eq_true, ↓reduceIte, repaired]
+    exact pipeMono_disable s e
+  · simp only [ha, Bool.not_false, ↓reduceIte]; exact PipeMono.refl s
+
 theorem pipeMono_enable (s : State) (e : Nat) (h : Inv s) : PipeMono s (enable repaired s e).1 := by
   by_cases ha : (s.evs e).alive = true
   case neg => simp only [enable, ha, Bool.not_false, ↓reduceIte]; exact PipeMono.refl s
@@ -235,6 +245,7 @@ theorem pipeMono_passChunk (s : State) (l : Nat) (ord items : List Nat) (h : Inv
       (fun s2 j h2 hp2 => hp2.trans (pipeMono_enable s2 j h2))
       (fun s2 j _ hp2 => hp2.trans (pipeMono_disable s2 j))
       (fun s2 j _ hp2 => hp2.trans (pipeMono_destroy s2 j))
+      (fun s2 j sg o _ hp2 => hp2.trans (pipeMono_initEv s2 j sg o))
       (fun s2 l2 e2 g2 _ _ hp2 => hp2.trans (pipeMono_evPre s2 l2 e2 g2))
       s1 l e g h1 hm hp)
     s items h (PipeMono.refl s)
